@@ -19,20 +19,32 @@ Theorem c09_ks_shape : forall (n : nat) (k : N),
 Proof. exact (fun n k => conj (ks_length n k) (ks_nth n k)). Qed.
 Print Assumptions c09_ks_shape.
 
-(* a cut point counts as checkpointed exactly when a checkpoint frame for that seq exists … *)
+(* a cut point counts as checkpointed exactly when a checkpoint frame for that seq exists (any number of
+   checkpoint frames: the bounded scan answers only when it covered them all, otherwise truth is read) … *)
 Theorem c09_checkpointed_iff : forall (K : consts) (stride lim : N) (l : list ev) (c : cutpt),
-  nlen (ckpts l) <= k_ck_window K ->
   In c (cut_points K stride lim l) ->
   (cp_done c = true <-> exists e r a m, In e l /\ ebody e = BCkpt r a (cp_seq c) m).
 Proof. exact checkpointed_iff. Qed.
 Print Assumptions c09_checkpointed_iff.
 
-(* … and without the size hypothesis: exactly when one is among the last k_ck_window checkpoint frames *)
-Theorem c09_checkpointed_iff_window : forall (K : consts) (stride lim : N) (l : list ev) (c : cutpt),
+(* … the latest such frame (largest frame seq, i.e. latest in stream order) winning: the reported
+   latest_checkpoint_id is the id of a checkpoint frame for that seq that no other such frame follows *)
+Theorem c09_checkpointed_latest_wins : forall (K : consts) (stride lim : N) (l : list ev) (c : cutpt),
   In c (cut_points K stride lim l) ->
-  (cp_done c = true <-> exists k, In k (ck_window K l) /\ ck_to k = cp_seq c).
-Proof. exact checkpointed_iff_window. Qed.
-Print Assumptions c09_checkpointed_iff_window.
+  (forall i, cp_ck c = Some i <-> exists b, latest_for (ckpts l) (cp_seq c) b /\ ck_id b = i
+                                          /\ cut_lookup K l (cp_seq c) = Some b)
+  /\ (cp_done c = false -> cp_ck c = None).
+Proof. exact checkpointed_latest_wins. Qed.
+Print Assumptions c09_checkpointed_latest_wins.
+
+(* the code before the fix (bounded backward scan trusted even when cut short) violated it: with a scan window
+   of 2 checkpoint frames, a cut point whose frame is the third-newest is reported not checkpointed *)
+Theorem c09_checkpointed_iff_unfixed_refuted :
+  map (fun c => (cp_seq c, cp_done c)) (cut_points_unfixed small_window 1 2 unfixed_log) = [(2, true); (1, false)]
+  /\ map (fun c => (cp_seq c, cp_done c)) (cut_points small_window 1 2 unfixed_log) = [(2, true); (1, true)]
+  /\ In {| eseq := 3; eid := 4; ebody := BCkpt 0 1 1 (Some 2) |} unfixed_log.
+Proof. exact unfixed_refuted. Qed.
+Print Assumptions c09_checkpointed_iff_unfixed_refuted.
 
 Theorem c09_stride_zero_rejected : forall (K : consts) (s : st),
   (forall lim, step K s (OCut (Some 0) lim) = (s, [1; 10]))
@@ -52,5 +64,5 @@ Print Assumptions c09_manual_stride_zero_rejected.
 Example c09_demo_cut_points :
   map (fun c => (cp_ord c, cp_seq c, cp_mid c, cp_done c, cp_ck c)) (cut_points real_consts 2 32 demo_log)
   = [(4, 5, 6, false, None); (2, 2, 3, true, Some 9)]
-  /\ nlen (ckpts demo_log) <= k_ck_window real_consts.
+  /\ map eid (filter (fun e => match ebody e with BCkpt _ _ 2 _ => true | _ => false end) demo_log) = [8; 9].
 Proof. exact demo_cut_points. Qed.
